@@ -65,7 +65,9 @@ Inductive creq :=
 | RResume (previd : str) (h : N)
 | RBind (res : str) (id : N) | RSession (id : N)
 | REnable (resume : bool).
-Record out := { o_req : creq; o_tls : bool }.   (* o_tls: ghost, the channel really is TLS *)
+(* o_tls: ghost, the channel really is TLS.  o_seen: ghost, the server items the client
+   has consumed since its previous request (what made it send this one). *)
+Record out := { o_req : creq; o_tls : bool; o_seen : list sitem }.
 
 Inductive result :=
 | Ok
@@ -138,13 +140,14 @@ Definition mech_plain : str := s_ [80;76;65;73;78]%Z.
 Definition mech_oauth : str := s_ [88;45;79;65;85;84;72;50]%Z.
 Definition implemented (m : str) : bool := str_eqb m mech_plain || str_eqb m mech_oauth.
 
-Definition o (chan : bool) (r : creq) : out := {| o_req := r; o_tls := chan |}.
+Definition o (chan : bool) (r : creq) (seen : list sitem) : out :=
+  {| o_req := r; o_tls := chan; o_seen := seen |}.
 
 (* ---- steps after authentication (stream already restarted, features f read) ---- *)
-Definition step_enable (cfg : config) (chan : bool) (p : persist) (f : features) (s : list sitem)
+Definition step_enable (cfg : config) (chan : bool) (p : persist) (f : features) (s seen : list sitem)
   : list out * result * persist :=
   if f_sm f && p_sm_enable p then
-    let w := [o chan (REnable (c_sm_resume cfg))] in
+    let w := [o chan (REnable (c_sm_resume cfg)) seen] in
     match s with
     | SEnabled id r :: _ =>
         (w, Ok, set_sm p id (match r with ResTrue => p_sm_enable p | _ => false end))
@@ -153,63 +156,65 @@ Definition step_enable (cfg : config) (chan : bool) (p : persist) (f : features)
     end
   else ([], Ok, p).
 
-Definition step_session (cfg : config) (chan : bool) (p : persist) (f : features) (s : list sitem)
+Definition step_session (cfg : config) (chan : bool) (p : persist) (f : features) (s seen : list sitem)
   : list out * result * persist :=
   match f_sess f with
   | SessMandatory =>
       let pid := p_packet_id p + 1 in
       let p1 := set_bind p (p_bind_jid p) pid in
-      let w := [o chan (RSession pid)] in
+      let w := [o chan (RSession pid) seen] in
       match s with
-      | SIq TResult _ _ :: s' =>
-          let '(w2, r, p2) := step_enable cfg chan p1 f s' in (w ++ w2, r, p2)
+      | SIq TResult pl e :: s' =>
+          let '(w2, r, p2) := step_enable cfg chan p1 f s' [SIq TResult pl e] in (w ++ w2, r, p2)
       | _ => (w, Err false false, p1)
       end
-  | _ => step_enable cfg chan p f s
+  | _ => step_enable cfg chan p f s seen
   end.
 
-Definition step_bind (cfg : config) (chan : bool) (p : persist) (f : features) (s : list sitem)
+Definition step_bind (cfg : config) (chan : bool) (p : persist) (f : features) (s seen : list sitem)
   : list out * result * persist :=
   let pid := p_packet_id p + 1 in
-  let w := [o chan (RBind (c_resource cfg) pid)] in
+  let w := [o chan (RBind (c_resource cfg) pid) seen] in
   match s with
-  | SIq TResult (PlBind jid) _ :: s' =>
-      let '(w2, r, p2) := step_session cfg chan (set_bind p jid pid) f s' in (w ++ w2, r, p2)
+  | SIq TResult (PlBind jid) e :: s' =>
+      let '(w2, r, p2) := step_session cfg chan (set_bind p jid pid) f s' [SIq TResult (PlBind jid) e] in
+      (w ++ w2, r, p2)
   | _ => (w, Err false false, set_bind p (p_bind_jid p) pid)
   end.
 
-Definition step_resume (cfg : config) (chan : bool) (p : persist) (f : features) (s : list sitem)
+Definition step_resume (cfg : config) (chan : bool) (p : persist) (f : features) (s seen : list sitem)
   : list out * result * persist :=
   if f_sm f && negb (str_eqb (p_sm_id p) []) then
-    let w := [o chan (RResume (p_sm_id p) (p_inbound p))] in
+    let w := [o chan (RResume (p_sm_id p) (p_inbound p)) seen] in
     match s with
     | SResumed previd :: _ =>
         if str_eqb previd (p_sm_id p) then (w, Ok, p)
         else (w, Err false false, clear_sm p)
     | SFailed :: s' =>
-        let '(w2, r, p2) := step_bind cfg chan (clear_sm p) f s' in (w ++ w2, r, p2)
+        let '(w2, r, p2) := step_bind cfg chan (clear_sm p) f s' [SFailed] in (w ++ w2, r, p2)
     | _ => (w, Err false false, clear_sm p)
     end
-  else step_bind cfg chan p f s.
+  else step_bind cfg chan p f s seen.
 
 (* auth, then stream restart, then resume | bind ... *)
-Definition step_auth (cfg : config) (chan : bool) (p : persist) (f : features) (s : list sitem)
+Definition step_auth (cfg : config) (chan : bool) (p : persist) (f : features) (s seen : list sitem)
   : list out * result * persist :=
   match choose_mech (c_mechs cfg) (f_mechs f) with
   | None => ([], Err true true, p)
   | Some m =>
       if negb (implemented m) then ([], Err true true, p) else
-      let w := [o chan (RAuth m)] in
+      let w := [o chan (RAuth m) seen] in
       match s with
       | SSuccess :: s1 =>
-          let w1 := w ++ [o chan ROpen] in
+          let w1 := w ++ [o chan ROpen [SSuccess]] in
           match read_header s1 with
           | None => (w1, Err true false, p)
-          | Some (_, s2) =>
+          | Some (id2, s2) =>
               match read_features s2 with
               | None => (w1, Err false false, p)
               | Some (f2, s3) =>
-                  let '(w2, r, p2) := step_resume cfg chan p f2 s3 in (w1 ++ w2, r, p2)
+                  let '(w2, r, p2) := step_resume cfg chan p f2 s3 [SHeader id2; SFeatures f2] in
+                  (w1 ++ w2, r, p2)
               end
           end
       | SSaslFailure :: _ => (w, Err true true, p)
@@ -225,10 +230,10 @@ Definition connect (cfg : config) (dial_ok tls_ok : bool) (p0 : persist) (s : li
   if negb dial_ok then ([], Err true false, p0) else
   (* XMPPTransport.Connect: new TCP connection, isSecure reset *)
   let p := set_flags p0 false (p_tls_enabled p0) in
-  let w0 := [o false ROpen] in
+  let w0 := [o false ROpen []] in
   match read_header s with
   | None => (w0, Err true false, p)
-  | Some (_, s1) =>
+  | Some (id0, s1) =>
       (* NewSession: a re-used Session starts with TlsEnabled cleared *)
       let p := set_flags p false false in
       match read_features s1 with
@@ -238,10 +243,11 @@ Definition connect (cfg : config) (dial_ok tls_ok : bool) (p0 : persist) (s : li
           match f_tls f with
           | TlsNone =>
               if c_insecure cfg then
-                let '(w, r, p') := step_auth cfg false (with_session p) f s2 in (w0 ++ w, r, p')
+                let '(w, r, p') := step_auth cfg false (with_session p) f s2 [SHeader id0; SFeatures f] in
+                (w0 ++ w, r, p')
               else (w0, Err true true, drop_session p)
           | _ =>
-              let w1 := w0 ++ [o false RStartTls] in
+              let w1 := w0 ++ [o false RStartTls [SHeader id0; SFeatures f]] in
               match read_proceed s2 with
               | None =>
                   if c_insecure cfg then (w1, Err false false, with_session p)
@@ -249,14 +255,14 @@ Definition connect (cfg : config) (dial_ok tls_ok : bool) (p0 : persist) (s : li
               | Some s3 =>
                   if tls_ok then
                     let p := set_flags p true true in
-                    let w2 := w1 ++ [o true ROpen] in
+                    let w2 := w1 ++ [o true ROpen [SProceed]] in
                     match read_header s3 with
                     | None => (w2, Err true false, with_session p)
-                    | Some (_, s4) =>
+                    | Some (id1, s4) =>
                         match read_features s4 with
                         | None => (w2, Err false false, with_session p)
                         | Some (f1, s5) =>
-                            let '(w, r, p') := step_auth cfg true (with_session p) f1 s5 in
+                            let '(w, r, p') := step_auth cfg true (with_session p) f1 s5 [SHeader id1; SFeatures f1] in
                             (w2 ++ w, r, p')
                         end
                     end
@@ -282,3 +288,27 @@ Fixpoint run_conns (cfg : config) (p : persist) (cs : list conn)
   end.
 
 Definition reqs (w : list out) : list creq := map o_req w.
+
+(* "each request is sent only after the previous step was confirmed": the items a
+   request's [o_seen] must consist of, given the request before it *)
+Definition confirms (r : creq) (seen : list sitem) : bool :=
+  match r, seen with
+  | ROpen, [SHeader _; SFeatures _] => true
+  | RStartTls, [SProceed] => true
+  | RAuth _, [SSuccess] => true
+  | RResume _ _, [SFailed] => true
+  | RBind _ _, [SIq TResult (PlBind _) _] => true
+  | RSession _, [SIq TResult _ _] => true
+  | _, _ => false
+  end.
+Fixpoint chain (prev : option creq) (w : list out) : bool :=
+  match w with
+  | [] => true
+  | x :: w' =>
+      match prev with
+      | None => match o_seen x with [] => true | _ => false end
+      | Some r => confirms r (o_seen x)
+      end && chain (Some (o_req x)) w'
+  end.
+(* everything the client had consumed when it sent its last request *)
+Definition consumed (w : list out) : list sitem := concat (map o_seen w).
